@@ -278,31 +278,32 @@ func DBGet(ueId string, ratingGroup uint32, field string) (string, bool) {
 	notNative("DBGet")
 	return "", false
 }
-func DBWrites() int                                 { notNative("DBWrites"); return 0 }
-func HTTPStatus(c interface{}) int                  { notNative("HTTPStatus"); return 0 }
-func HTTPWrites(c interface{}) int                  { notNative("HTTPWrites"); return 0 }
-func HTTPHeader(c interface{}, key string) string   { notNative("HTTPHeader"); return "" }
-func HTTPBody(c interface{}) interface{}            { notNative("HTTPBody"); return nil }
-func HTTPSetParam(c interface{}, key, value string) { notNative("HTTPSetParam") }
-func Notifications() int                            { notNative("Notifications"); return 0 }
-func NotificationURI(i int) string                  { notNative("NotificationURI"); return "" }
-func NotificationBody(i int) interface{}            { notNative("NotificationBody"); return nil }
-func ServerPanicked() bool                          { notNative("ServerPanicked"); return false }
-func AnswersWritten() int                           { notNative("AnswersWritten"); return 0 }
-func ConnsOpened() int                              { notNative("ConnsOpened"); return 0 }
-func ConnsLeaked() int                              { notNative("ConnsLeaked"); return 0 }
-func DiamConn() interface{}                         { notNative("DiamConn"); return nil }
-func LastAnswer(dst interface{}) bool               { notNative("LastAnswer"); return false }
-func GinRoutes() int                                { notNative("GinRoutes"); return 0 }
-func GinRouteMethod(i int) string                   { notNative("GinRouteMethod"); return "" }
-func GinRoutePath(i int) string                     { notNative("GinRoutePath"); return "" }
-func GinChainLen(i int) int                         { notNative("GinChainLen"); return 0 }
-func GinServe(i int, c interface{}) int             { notNative("GinServe"); return 0 }
-func VerifyCalls() int                              { notNative("VerifyCalls"); return 0 }
-func Watch(ptr interface{}, name string)            { notNative("Watch") }
-func RacyLocations() int                            { notNative("RacyLocations"); return 0 }
-func AssertLockDiscipline()                         { notNative("AssertLockDiscipline") }
-func DeliverLateAnswers() int                       { notNative("DeliverLateAnswers"); return 0 }
+func DBWrites() int                                  { notNative("DBWrites"); return 0 }
+func HTTPStatus(c interface{}) int                   { notNative("HTTPStatus"); return 0 }
+func HTTPWrites(c interface{}) int                   { notNative("HTTPWrites"); return 0 }
+func HTTPHeader(c interface{}, key string) string    { notNative("HTTPHeader"); return "" }
+func HTTPBody(c interface{}) interface{}             { notNative("HTTPBody"); return nil }
+func HTTPSetParam(c interface{}, key, value string)  { notNative("HTTPSetParam") }
+func Notifications() int                             { notNative("Notifications"); return 0 }
+func NotificationURI(i int) string                   { notNative("NotificationURI"); return "" }
+func NotificationBody(i int) interface{}             { notNative("NotificationBody"); return nil }
+func ServerPanicked() bool                           { notNative("ServerPanicked"); return false }
+func AnswersWritten() int                            { notNative("AnswersWritten"); return 0 }
+func ConnsOpened() int                               { notNative("ConnsOpened"); return 0 }
+func ConnsLeaked() int                               { notNative("ConnsLeaked"); return 0 }
+func DiamConn() interface{}                          { notNative("DiamConn"); return nil }
+func LastAnswer(dst interface{}) bool                { notNative("LastAnswer"); return false }
+func AnswerTo(req interface{}, dst interface{}) bool { notNative("AnswerTo"); return false }
+func GinRoutes() int                                 { notNative("GinRoutes"); return 0 }
+func GinRouteMethod(i int) string                    { notNative("GinRouteMethod"); return "" }
+func GinRoutePath(i int) string                      { notNative("GinRoutePath"); return "" }
+func GinChainLen(i int) int                          { notNative("GinChainLen"); return 0 }
+func GinServe(i int, c interface{}) int              { notNative("GinServe"); return 0 }
+func VerifyCalls() int                               { notNative("VerifyCalls"); return 0 }
+func Watch(ptr interface{}, name string)             { notNative("Watch") }
+func RacyLocations() int                             { notNative("RacyLocations"); return 0 }
+func AssertLockDiscipline()                          { notNative("AssertLockDiscipline") }
+func DeliverLateAnswers() int                        { notNative("DeliverLateAnswers"); return 0 }
 
 func Parallel(fs ...func()) {
 	var wg sync.WaitGroup
